@@ -16,7 +16,7 @@ def build(ctx):
     eng = ctx.engine('lib', loop_bound=8)
     K = 2 if ctx.tier == 'quick' else 3
     ctx.bounds = {'modules returned by the resolver': '0..%d' % K, 'input': 'a path and standard input'}
-    ctx.outside = ['rustc_parse and ModResolver themselves (which inputs fail)', 'config / version errors raised before format_project', 'what format_file writes (C06: handle_formatted_file, emitters)',
+    ctx.outside = ['rustc_parse and ModResolver themselves (which inputs fail)', 'configuration errors raised while the options are loaded', 'what format_file writes (C06: handle_formatted_file, emitters)',
                    'the loop over several inputs in the binary (C15)']
     ctx.assumptions = ['ParseSess::new, Parser::parse_crate, ModResolver::visit_crate, FormatContext::format_file = Ok | Err, symbolic, observed in order',
                        'contains_skip / ignore_file / is_generated_file symbolic per module']
@@ -65,6 +65,8 @@ def build(ctx):
         raise Inconclusive('format_project: no path formats a file')
     ctx.cover('cover/some-path-formats-a-file', [z3.BoolVal(nfmt > 0)])
     part_emitter(ctx, eng, rp)
+    part_version_gate(ctx, eng)
+    part_module_file_classification(ctx, eng)
 
 
 def part_emitter(ctx, eng, rp):
@@ -151,6 +153,159 @@ def replay_emitter(model, r):
         changed = sorted(n for n in files if hashlib.sha256(open(os.path.join(d, n), 'rb').read()).hexdigest() != before[n])
         if r_.returncode != want_exit or changed != sorted(must_change):
             found.append('%s: exit %d (expected %d), files rewritten %r (expected %r)' % (what, r_.returncode, want_exit, changed, sorted(must_change)))
+    shutil.rmtree(d, ignore_errors=True)
+    return {'reproduced': bool(found), 'detail': found}
+
+
+# ----------------------------------------------------------------------------- the version gate in front of format_project
+def part_version_gate(ctx, eng):
+    """Session::format_input_inner from an arbitrary session state: when the options in force for THIS input do not accept the running version
+    (Config::version_meets_requirement, symbolic), the result is Err(VersionMismatch) and neither format_project nor the echo of standard
+    input is reached.  The session object is under-constrained: whatever it remembers from earlier inputs is arbitrary."""
+    from mirsym.config import make_config
+    from mirsym.engine import StrSort
+    fii = eng.find('format_input_inner', self_ty='Session', file='src/formatting.rs')
+    old = (eng.lenient, eng.inline_only, list(eng.stubs))
+    eng.stubs = []
+    eng.lenient = True
+    eng.inline_only = [re.compile(r'format_input_inner'), re.compile(r'src/config/config_type\.rs'), re.compile(r'^Config::')]
+    V = z3.Bool('version_meets_requirement')
+    eng.stub(r'create_session_if_not_set_then::<', lambda e, s_, a, c: e.call_value(s_, a[1], [Opaque('&SessionGlobals', 'globals')], c.dest_ty), 'create_session_if_not_set_then(edition, f) = f(globals)')
+    eng.stub(r'version_meets_requirement$', lambda e, s_, a, c: (s_.trace.append(('version_asked',)), V)[1], 'Config::version_meets_requirement = symbolic (one answer for the options of this input)')
+    eng.stub(r'(^|::)format_project::<', lambda e, s_, a, c: (s_.trace.append(('format_project',)), Enum('Result', 0, {0: Tup([Opaque('FormatReport', 'fp')])}))[1], 'format_project observed')
+    eng.stub(r'(^|::)echo_back_stdin$', lambda e, s_, a, c: (s_.trace.append(('echo',)), Enum('Result', 0, {0: Tup([Opaque('FormatReport', 'echo')])}))[1], 'echo_back_stdin observed')
+    eng.stub(r'FormatReport::new$', lambda e, s_, a, c: Opaque('FormatReport', 'empty'), 'FormatReport::new')
+
+    def deref(e, s_, v):
+        while isinstance(v, Ref):
+            v = e.read_ref(s_, v)
+        return v
+    eng.stub(r'<(config::)?Config as (std::clone::)?Clone>::clone$', lambda e, s_, a, c: deref(e, s_, a[0]), 'Config::clone = the same options')
+    ek = eng.enum_variants('ErrorKind')
+    VM = ek.index('VersionMismatch')
+    n_reach = 0
+    try:
+        for is_text in (False, True):
+            st = State()
+            cfgref, cv = make_config(eng, st)
+            sfields = [n for n, _ in eng.src.struct_fields('Session', 'src/lib.rs')]
+            sess = Opaque('Session', 'sess')
+            st.notes[('lazy', sess.ident, sfields.index('config'))] = deref(eng, st, cfgref)
+            sref = eng.ref_to(st, sess, True, 'session')
+            inp = Enum('Input', 1 if is_text else 0, {1: Tup([StrVal(e=z3.Const('stdin_text', StrSort))]), 0: Tup([Opaque('PathBuf', 'file')])})
+            outs = ctx.check_outcomes(eng.run(fii, [sref, inp, eng.fresh_bool('is_macro_def')], st), 'format_input_inner')
+            for pi, o in enumerate(outs):
+                tag = 'version-gate/%s/p%d' % ('text' if is_text else 'file', pi)
+                if o.kind != 'ret':
+                    ctx.prop(tag + '/no-panic', o.state.pc, z3.BoolVal(True), [V], replay_version_gate, twin=False)
+                    continue
+                tr = [t[0] for t in o.state.trace]
+                v = o.value
+                is_vm = z3.BoolVal(False)
+                if isinstance(v, Enum) and 1 in v.payloads and v.payloads[1].items and isinstance(deref(eng, o.state, v.payloads[1].items[0]), Enum):
+                    is_vm = z3.And(v.discr == 1, deref(eng, o.state, v.payloads[1].items[0]).discr == VM)
+                reached = 'format_project' in tr or 'echo' in tr
+                if reached:
+                    n_reach += 1
+                ctx.prop(tag + '/a-version-mismatch-of-this-input-is-an-error-and-nothing-is-formatted', o.state.pc, z3.And(z3.Not(V), z3.Or(z3.Not(is_vm), z3.BoolVal(reached))), [V], replay_version_gate, twin=False)
+                ctx.prop(tag + '/no-mismatch-is-reported-when-the-version-is-accepted', o.state.pc, z3.And(V, is_vm), [V], replay_version_gate, twin=False)
+    finally:
+        eng.lenient, eng.inline_only, eng.stubs = old
+    if not n_reach:
+        raise Inconclusive('version gate: no path of format_input_inner reaches format_project')
+
+
+def replay_version_gate(model, r):
+    import hashlib
+    bins = ensure_bins()
+    rf = os.path.join(bins, 'rustfmt')
+    d = os.path.join(BUILD, 'scratch', 'c05v-%d' % os.getpid())
+    found = []
+    bad_fmt = 'pub fn   f( ) { }\n'
+    for order in (('good/src/main.rs', 'pinned/src/lib.rs'), ('pinned/src/lib.rs', 'good/src/main.rs'), ('pinned/src/lib.rs',)):
+        shutil.rmtree(d, ignore_errors=True)
+        for sub in ('good/src', 'pinned/src'):
+            os.makedirs(os.path.join(d, sub))
+        files = {'good/src/main.rs': bad_fmt, 'pinned/src/lib.rs': 'mod helper;\n' + bad_fmt, 'pinned/src/helper.rs': bad_fmt}
+        for n, t in files.items():
+            open(os.path.join(d, n), 'w').write(t)
+        open(os.path.join(d, 'pinned/rustfmt.toml'), 'w').write('required_version = "0.99.4"\n')
+        before = {n: hashlib.sha256(open(os.path.join(d, n), 'rb').read()).hexdigest() for n in files}
+        r_ = subprocess.run([rf] + list(order), capture_output=True, text=True, env=run_env(), timeout=60, cwd=d)
+        changed = sorted(n for n in files if hashlib.sha256(open(os.path.join(d, n), 'rb').read()).hexdigest() != before[n])
+        if r_.returncode == 0 or any(n.startswith('pinned/') for n in changed):
+            found.append('rustfmt %s with pinned/rustfmt.toml requiring another version: exit %d, files rewritten %r' % (' '.join(order), r_.returncode, changed))
+    shutil.rmtree(d, ignore_errors=True)
+    return {'reproduced': bool(found), 'detail': found}
+
+
+# ----------------------------------------------------------------------------- how a failing module file is classified
+def part_module_file_classification(ctx, eng):
+    """Parser::parse_file_as_module with rustc_parse as environment (returns | unwinds), ParseSess::{has_errors, can_reset_errors} and
+    Path::exists symbolic: whenever the file exists and the result is an error, the error is ParseError - never the "not found / panic" class the
+    module resolver tolerates for alternative #[cfg_attr(.., path)] locations (modules.rs::find_external_module)."""
+    import c16
+    old = (eng.lenient, eng.inline_only, list(eng.stubs), eng.unsupported_as_outcome)
+    eng.lenient = True
+    eng.stubs = []
+    eng.unsupported_as_outcome = False
+    eng.inline_only = [re.compile(r'src/parse/parser\.rs')]
+    rustc_call = c16.containment_env(eng)
+    eng.stub(c16.RUSTC_PARSE, rustc_call, 'every call into rustc_parse = returns an arbitrary value | unwinds')
+    E = z3.Bool('the_module_file_exists')
+    eng.stub(r'(std::path::)?Path::exists$', lambda e, s_, a, c: E, 'Path::exists = symbolic')
+    pe = eng.enum_variants('ParserError')
+    PE = pe.index('ParseError')
+    try:
+        cands = [r for r in eng.by_method.get('parse_file_as_module', []) if r['file'] == 'src/parse/parser.rs']
+        if len(cands) != 1:
+            raise Inconclusive('parse_file_as_module not found')
+        name = cands[0]['name']
+        fn = eng.get_fn(name)
+        st = State()
+        args = [eng.fresh_of_type(st, ty, 'arg.%s' % pn) for pn, ty in fn.params]
+        outs = ctx.check_outcomes(eng.run(name, args, st), 'parse_file_as_module', allow_panic=True)
+        n_err = 0
+        for pi, o in enumerate(outs):
+            if o.kind != 'ret':
+                continue        # unwinding out of the entry point is C16's obligation
+            v = o.value
+            while isinstance(v, Ref):
+                v = eng.read_ref(o.state, v)
+            if not isinstance(v, Enum) or v.name != 'Result':
+                raise Inconclusive('parse_file_as_module returned %r' % (v,))
+            if 1 not in v.payloads:
+                continue
+            n_err += 1
+            err = v.payloads[1].items[0]
+            while isinstance(err, Ref):
+                err = eng.read_ref(o.state, err)
+            ctx.prop('module-file/p%d/an-existing-file-that-fails-is-a-parse-error' % pi, o.state.pc, z3.And(v.discr == 1, E, err.discr != PE), [E], replay_module_file, twin=False)
+        if not n_err:
+            raise Inconclusive('module-file classification: no failing path explored')
+    finally:
+        eng.lenient, eng.inline_only, eng.stubs, eng.unsupported_as_outcome = old
+
+
+def replay_module_file(model, r):
+    """the default-path file of a module with a cfg_attr(path) alternative exists and is broken: the run must fail and write nothing"""
+    import hashlib
+    bins = ensure_bins()
+    rf = os.path.join(bins, 'rustfmt')
+    d = os.path.join(BUILD, 'scratch', 'c05m-%d' % os.getpid())
+    found = []
+    bad_fmt = 'pub fn   f( ) { }\n'
+    for what, broken in (('unterminated string', 'pub fn g() { let s = "abc; }\n'), ('unclosed delimiter', 'pub fn g( {\n'), ('unterminated block comment', 'pub fn g() {}\n/* never closed\n')):
+        shutil.rmtree(d, ignore_errors=True)
+        os.makedirs(d)
+        files = {'main.rs': 'mod bar;\n#[cfg_attr(unix, path = "unix_foo.rs")]\nmod foo;\n' + bad_fmt, 'bar.rs': bad_fmt, 'unix_foo.rs': bad_fmt, 'foo.rs': broken}
+        for n, t in files.items():
+            open(os.path.join(d, n), 'w').write(t)
+        before = {n: hashlib.sha256(open(os.path.join(d, n), 'rb').read()).hexdigest() for n in files}
+        r_ = subprocess.run([rf, 'main.rs'], capture_output=True, text=True, env=run_env(), timeout=60, cwd=d)
+        changed = sorted(n for n in files if hashlib.sha256(open(os.path.join(d, n), 'rb').read()).hexdigest() != before[n])
+        if r_.returncode == 0 or changed:
+            found.append('foo.rs exists with an %s next to a cfg_attr(path) alternative: exit %d, files rewritten %r' % (what, r_.returncode, changed))
     shutil.rmtree(d, ignore_errors=True)
     return {'reproduced': bool(found), 'detail': found}
 
